@@ -36,7 +36,7 @@ NoFh == [n \in Names |-> 0]
 
 Neutral == [fam |-> "-", tail |-> <<<<"u">>>>, strip |-> "none", add |-> "none", slashes |-> "off", scheme |-> "",
             qstrip |-> <<>>, query |-> <<>>, method |-> "GET", body |-> "none",
-            ph |-> <<>>, phc |-> 0, pass |-> FALSE, peer |-> "untrusted", fh |-> NoFh]
+            ph |-> <<>>, phc |-> 0, pass |-> FALSE, peer |-> "untrusted", fh |-> NoFh, rb |-> FALSE]
 
 Schemes == <<"", "http", "https">>
 Methods == <<"GET", "POST", "PUT", "PATCH", "DELETE", "OPTIONS", "PROPFIND", "FOO">>
@@ -51,7 +51,9 @@ FamP ==
 
 (* parameter kinds: plain a=1, dup a=2, tok tok=..., tok2 (second tok), enctok (key spelled t%6Fk), amp (value   *)
 (* with %26), eq (key with %3D), plus, pct20, noval, empty, mal (m=%zz), semi (n=1;o=2)                          *)
-Kinds == {"plain", "dup", "tok", "tok2", "enctok", "amp", "eq", "plus", "pct20", "noval", "empty", "mal", "semi"}
+(* spplus / sp20: a key with a space, spelled my+key and my%20key (the name "my key" may be configured)         *)
+Kinds == {"plain", "dup", "tok", "tok2", "enctok", "amp", "eq", "plus", "pct20", "noval", "empty", "mal", "semi",
+          "spplus", "sp20"}
 QueriesQuick == UNION {[1..n -> Kinds] : n \in 0..2}
                 \cup {<<a, "tok", b>> : a \in {"plain", "amp", "mal", "tok2"}, b \in {"dup", "eq", "semi", "enctok", "noval"}}
 QueriesThorough == UNION {[1..n -> Kinds] : n \in 0..3}
@@ -59,7 +61,7 @@ Queries == IF Thorough THEN QueriesThorough ELSE QueriesQuick
 
 FamQ ==
   LET base == SetToSeq({[Neutral EXCEPT !.fam = "Q", !.query = q, !.qstrip = qs] :
-                          q \in Queries, qs \in {<<>>, <<"tok">>, <<"tok", "a">>}})
+                          q \in Queries, qs \in {<<>>, <<"tok">>, <<"tok", "a">>, <<"my key", "tok">>}})
   IN [i \in 1..Len(base) |-> [base[i] EXCEPT !.strip = IF i % 5 = 0 THEN "seg1" ELSE "none",
                                                !.method = Methods[(i % 8) + 1],
                                                !.scheme = Schemes[(i % 3) + 1]]]
@@ -82,8 +84,10 @@ FamF ==
                                                !.phc = i % 3]]
 
 FamB ==
-  LET base == SetToSeq({[Neutral EXCEPT !.fam = "B", !.method = Methods[m], !.body = b, !.strip = st] :
-                          m \in 1..8, b \in {"none", "empty", "small", "big"}, st \in {"none", "seg2"}})
+  (* text / badjson / json / form: bodies with a content type; rb: a pipeline step reads Request.Body *)
+  LET base == SetToSeq({[Neutral EXCEPT !.fam = "B", !.method = Methods[m], !.body = b, !.strip = st, !.rb = rb] :
+                          m \in 1..8, b \in {"none", "empty", "small", "big", "text", "badjson", "json", "form"},
+                          st \in {"none", "seg2"}, rb \in BOOLEAN})
   IN base
 
 ASSUME
